@@ -1,10 +1,7 @@
 import AFV.Driver.Proto
+import AFV.Model.Fuse
 namespace AFV.Driver.C04
-open Lean AFV.Proto
-
-def maxOf (l : List Int) : Int := l.foldl max 0
-/-- Σ over groups of the maximum of each group (latency: Σ_einsum max_component; energy: singleton groups). -/
-def sumOfMax (gs : List (List Int)) : Int := (gs.map maxOf).foldl (· + ·) 0
+open Lean AFV.Proto AFV.Fuse
 
 def handle (req : Json) : Json :=
   match (field? req "op").bind getStr? with
